@@ -40,6 +40,30 @@ func relLaws(r jsonapi.Rel) string {
 		return fmt.Sprintf("Invert(Invert(r)) = %s", relDesc(inv2))
 	}
 
+	// The inverse of a two-way relationship is the same relationship seen
+	// from the other side - known without asking the library: both halves
+	// swapped. The "same result for a relationship and for its inverse" law
+	// is checked against that one.
+	side := jsonapi.Rel{FromType: r.ToType, FromName: r.ToName, ToOne: r.FromOne, ToType: r.FromType, ToName: r.FromName, FromOne: r.ToOne}
+
+	if canonicalDomain(r) {
+		if inv != side {
+			return fmt.Sprintf("Invert(r) = %s, the relationship seen from the other side is %s", relDesc(inv), relDesc(side))
+		}
+
+		var nside jsonapi.Rel
+
+		var sside string
+
+		if p := oracle.Try(func() { nside, sside = side.Normalize(), side.String() }); p != nil {
+			return p.String()
+		}
+
+		if nside != n || sside != s {
+			return fmt.Sprintf("Normalize / String of r give %s / %q, of the other side %s / %q", relDesc(n), s, relDesc(nside), sside)
+		}
+	}
+
 	if n != r && n != inv {
 		return fmt.Sprintf("Normalize(r) = %s is neither r nor its inverse", relDesc(n))
 	}
@@ -305,7 +329,10 @@ func TestC16Schema(t *testing.T) {
 					return
 				}
 
-				s3.Rels()
+				// a query between two edits, or not
+				if rapid.Bool().Draw(t, "queryBetween") {
+					s3.Rels()
+				}
 			}
 		}); p != nil {
 			t.Fatalf("C16 violated: building the schema edit by edit %s on %s", p, ss)
